@@ -101,8 +101,22 @@ type vItem struct {
 }
 
 type vLoad struct {
-	Q [][]vItem `json:"q"`
-	G []vAdv    `json:"g"`
+	Q    [][]vItem `json:"q"`
+	G    []vAdv    `json:"g"`
+	Gaps []int     `json:"gaps"` // microseconds the updater waits before its k-th update
+	Tail int       `json:"tail"` // microseconds the history stays open after the last update
+}
+
+func vSpin(us int) {
+	if us <= 0 {
+		return
+	}
+	if us >= 1000 {
+		time.Sleep(time.Duration(us) * time.Microsecond)
+		return
+	}
+	for t0 := time.Now(); time.Since(t0) < time.Duration(us)*time.Microsecond; {
+	}
 }
 
 type vInit struct {
@@ -261,6 +275,9 @@ func (e *vArpEnd) ask(aop, dst string, target net.IP) string {
 		dmac = ethernet.Broadcast
 	case "other":
 		dmac = vOtherMAC
+	case "near": // another station whose address differs from ours in the last byte only
+		dmac = append(net.HardwareAddr{}, e.mac...)
+		dmac[5] ^= 0x10
 	}
 	pkt, err := arp.NewPacket(op, vReqMAC, vReqIP, dmac, target)
 	kit.Must(err)
@@ -676,11 +693,14 @@ func vRunHistory(w kit.Walk, b *kit.Block) {
 	go func() {
 		defer wg.Done()
 		<-start
-		for _, raw := range w.Steps {
+		for n, raw := range w.Steps {
 			act := vAct{Adv: vNoAdv()}
 			kit.Must(json.Unmarshal(raw, &act))
 			if act.Adv.Ifs == nil {
 				act.Adv.Ifs = []string{}
+			}
+			if len(in.Load.Gaps) > 0 {
+				vSpin(in.Load.Gaps[n%len(in.Load.Gaps)])
 			}
 			ev := vBlankEv("u", act.Op)
 			ev.S, ev.Adv = act.S, act.Adv
@@ -727,6 +747,7 @@ func vRunHistory(w kit.Walk, b *kit.Block) {
 	}()
 	close(start)
 	wg.Wait()
+	vSpin(in.Load.Tail)
 	// let the spam loop handle what SetBalancer queued (its first gratuitous per address is immediate)
 	for i := 0; i < 200 && len(r.a.spamCh) > 0; i++ {
 		time.Sleep(100 * time.Microsecond)
@@ -761,7 +782,7 @@ func TestVerifAnnouncerConc(t *testing.T) {
 	out := kit.NewObsWriter()
 	defer out.Close()
 	if os.Getenv("VERIF_PAR") == "" {
-		os.Setenv("VERIF_PAR", "2")
+		os.Setenv("VERIF_PAR", "3")
 	}
 	kit.ForEachWalk(walks, out, vRunHistory)
 	t.Logf("ran %d histories, %d events, ndp=%v", len(walks), out.N, vNdpIf != nil)
